@@ -482,7 +482,15 @@ func TestVerif_C23(t *testing.T) {
 	noTenant := context.Background()
 	system := systemtenant.WithUnsafeContext(context.Background())
 	for ci := 0; ci < nCorp; ci++ {
-		w, err := newWorld(rec, uint64(ci)+23_000_000, worldOpt{tenants: nTenants, configure: func(g *kit.Gen) { g.MaxRepos = 6; g.SameNames = true }})
+		w, err := newWorld(rec, uint64(ci)+23_000_000, worldOpt{tenants: nTenants, configure: func(g *kit.Gen) {
+			g.MaxRepos = 6
+			g.SameNames = true
+			if ci%4 == 2 {
+				// repositories without a numeric id, and ids shared between tenants; no
+				// tombstones in these worlds (they are set by id through the sidecar)
+				g.ZeroIDs, g.CollideIDs, g.Tombstones = true, true, false
+			}
+		}})
 		if err != nil {
 			rec.Violation("harness/build", err.Error(), nil)
 			continue
@@ -491,7 +499,7 @@ func TestVerif_C23(t *testing.T) {
 		// repositories of one name); a name (keys of RepoURLs / LineFragments, sub-repository
 		// names) is visible to every tenant that owns a repository of that name
 		owner := map[string]int{}
-		own := c23Owners{byID: map[uint32]int{}, byName: map[string]map[int]bool{}}
+		own := c23Owners{byID: map[uint32]int{}, byName: map[string]map[int]bool{}, idTenants: map[uint32]map[int]bool{}, docs: map[string]map[int]bool{}}
 		sameName := false
 		for _, r := range w.c.Repos {
 			if _, dup := owner[r.Name]; dup {
@@ -499,6 +507,17 @@ func TestVerif_C23(t *testing.T) {
 			}
 			owner[r.Name] = r.TenantID
 			own.byID[r.ID] = r.TenantID
+			if own.idTenants[r.ID] == nil {
+				own.idTenants[r.ID] = map[int]bool{}
+			}
+			own.idTenants[r.ID][r.TenantID] = true
+			for _, d := range r.Docs {
+				k := fmt.Sprintf("%s\x00%d\x00%s", r.Name, r.ID, d.Name)
+				if own.docs[k] == nil {
+					own.docs[k] = map[int]bool{}
+				}
+				own.docs[k][r.TenantID] = true
+			}
 			for _, n := range append([]string{r.Name}, c23SubNames(r)...) {
 				if own.byName[n] == nil {
 					own.byName[n] = map[int]bool{}
@@ -545,15 +564,19 @@ func TestVerif_C23(t *testing.T) {
 }
 
 type c23Owners struct {
-	byID   map[uint32]int
-	byName map[string]map[int]bool
+	byID      map[uint32]int
+	byName    map[string]map[int]bool
+	idTenants map[uint32]map[int]bool // ids are not unique when CollideIDs / ZeroIDs is on
+	docs      map[string]map[int]bool // (repository name, id, file name) -> tenants owning such a document
 }
 
 // c23View is what one caller may see.
 type c23View struct {
-	id       func(id uint32) bool   // a repository, identified by id
-	name     func(name string) bool // a repository or sub-repository name
-	dupNames bool                   // some name is owned by more than one tenant
+	file     func(repo string, id uint32, file string) bool // a document of a repository (name, id)
+	tenant   func(t int) bool                               // a repository that states its tenant
+	id       func(id uint32) bool                           // a repository, identified by id
+	name     func(name string) bool                         // a repository or sub-repository name
+	dupNames bool                                           // some name is owned by more than one tenant
 }
 
 func (o c23Owners) view(tid int, system bool) c23View {
@@ -565,12 +588,19 @@ func (o c23Owners) view(tid int, system bool) c23View {
 	}
 	return c23View{
 		dupNames: dup,
+		file: func(repo string, id uint32, file string) bool {
+			if system {
+				return true
+			}
+			return tid != 0 && o.docs[fmt.Sprintf("%s\x00%d\x00%s", repo, id, file)][tid]
+		},
+		tenant: func(t int) bool { return system || (tid != 0 && t == tid) },
 		id: func(id uint32) bool {
 			if system {
 				return true
 			}
-			t, ok := o.byID[id]
-			return ok && tid != 0 && t == tid
+			// with shared ids: visible if the caller owns a repository of that id
+			return tid != 0 && o.idTenants[id][tid]
 		},
 		name: func(n string) bool {
 			if system {
@@ -601,7 +631,7 @@ func c23Search(rec *kit.Rec, w *world, q query.Q, opts zoekt.SearchOptions, ctx 
 	inspect := func(api string, sr *zoekt.SearchResult) {
 		for i := range sr.Files {
 			f := &sr.Files[i]
-			if !may.id(f.RepositoryID) || !allowed(f.Repository) {
+			if !may.id(f.RepositoryID) || !allowed(f.Repository) || !may.file(f.Repository, f.RepositoryID, f.FileName) {
 				leak(api+"/Files", fmt.Sprintf("%s (id %d)", f.Repository, f.RepositoryID))
 			}
 			if f.SubRepositoryName != "" && !allowed(f.SubRepositoryName) {
@@ -703,7 +733,7 @@ func c23Search(rec *kit.Rec, w *world, q query.Q, opts zoekt.SearchOptions, ctx 
 				continue
 			}
 			for _, e := range rl.Repos {
-				if !may.id(e.Repository.ID) || !allowed(e.Repository.Name) {
+				if !may.id(e.Repository.ID) || !allowed(e.Repository.Name) || !may.tenant(e.Repository.TenantID) {
 					leak(api+"/Repos", fmt.Sprintf("%s (id %d, tenant %d)", e.Repository.Name, e.Repository.ID, e.Repository.TenantID))
 				}
 			}
